@@ -60,7 +60,8 @@ type File struct {
 func (o Opts) proto() *descriptorpb.MethodOptions {
 	mo := &descriptorpb.MethodOptions{}
 	any := false
-	set := func(b bool, ext interface{ /* *protoimpl.ExtensionInfo */ }) {}
+	set := func(b bool, ext interface { /* *protoimpl.ExtensionInfo */
+	}) {}
 	_ = set
 	if o.RPC {
 		proto.SetExtension(mo, gorums.E_Rpc, true)
